@@ -88,7 +88,7 @@ NewellVector(vs) == Newell(vs, Len(vs))
 HasRoot(v) == \E r \in 0..3000 : r * r = v
 Root(v) == CHOOSE r \in 0..3000 : r * r = v
 
-\* ---- shading devices of a window (overhang, side fins) on the wall of edge n: lengths in mm -------------------------
+\* ---- shading devices of a window (overhang, side fins) on the wall of edge n: lengths in a finer unit than the building's (mmu of them per building unit) -------------------------
 \* (the building descriptor is in `upm` units per metre: its lengths are brought to mm first)
 \* A point of the wall's own frame: u along the edge (left to right seen from outside), v up from the floor, t outwards;
 \* u, v, t are numerators over q. The edge must have a rational length.
